@@ -2,6 +2,7 @@ package rules
 
 import (
 	"fmt"
+	"go/constant"
 	"go/token"
 	"go/types"
 	"sort"
@@ -17,7 +18,7 @@ func init() {
 		ID: "C03",
 		Explanation: "Three structural clauses of the slice/map helpers, decided on SSA for all inputs: (R1) every slice or index expression whose bound depends on an integer parameter (or is a constant index into a parameter) satisfies 0 <= lo <= hi <= len(s) under the comparisons that dominate it (difference-bound reasoning over the parameters, len() terms and constants) - len, not cap, because slicing past len returns elements that are not part of the input; " +
 			"(R2) loops whose step or group size comes from a parameter are dominated by step > 0 (termination); (R3) no helper writes memory reachable from its slice/map arguments (interprocedural write-effect analysis; append into spare capacity counts as a write). " +
-			"(R4) every integer division or remainder has a divisor proven non-zero under its dominating guards; (R5) an input map is never read with a plain index expression for a key that may be absent (missing key vs stored zero value). R4/R5 expect zero instances on the library and self-test their matcher on an embedded snippet on every run. Not decided: that each helper returns the value of its documented definition (value-level equality over all inputs), and indices that depend only on loop counters (listed in the evidence as counter-indexed, not claimed). (R6) Drop/DropLast/Take/TakeLast return on every feasible path the window of the input prescribed for the region of count the path lies in (linear forms over a difference-bound domain).",
+			"(R4) every integer division or remainder has a divisor proven non-zero under its dominating guards; (R5) an input map is never read with a plain index expression for a key that may be absent (missing key vs stored zero value). R4/R5 expect zero instances on the library and self-test their matcher on an embedded snippet on every run. Not decided: that each helper returns the value of its documented definition (value-level equality over all inputs), and indices that depend only on loop counters (listed in the evidence as counter-indexed, not claimed). (R8) no in-band zero sentinel: an equality comparison between an input element and a loop-carried variable that mixes the zero value of its type with input elements (`var last T … if v == last`) is reached only behind a condition inside the loop - otherwise an input whose first element is the zero value is treated as a repetition (zero instances on the library; the matcher is self-tested on an embedded snippet on every run). (R6) Drop/DropLast/Take/TakeLast return on every feasible path the window of the input prescribed for the region of count the path lies in (linear forms over a difference-bound domain).",
 		Trusted: append([]string{"user callbacks do not mutate the slices they are applied to"}, commonTrusted...),
 		Run:     runC03,
 		Relies: []Dep{
@@ -100,6 +101,7 @@ func runC03(c *core.Ctx) {
 	c.Rule("R4", "every integer division or remainder in the helpers has a divisor proven non-zero under its dominating guards", 1)
 	c.Rule("R6", "window helpers: on every path, Drop/DropLast/Take/TakeLast return exactly the window of the input their definition prescribes for the count region the path lies in (count >= len; 1 <= count < len; for Drop/DropLast also count <= 0)", 4)
 	c.Rule("R7", "Merge gives the second map precedence: its entries are written into the result unconditionally (not 'only if absent') and never before an entry of the first map on the same path", 2)
+	c.Rule("R8", "no in-band zero sentinel: a loop-carried 'previous element' variable that still holds the zero value it was declared with is not compared with an input element unguarded (the zero value of T is a legitimate element)", 1)
 	c.Rule("R5", "an input map is never read with a plain index expression for a key that may be absent (missing key ≠ stored zero value)", 1)
 	ei := core.ComputeEffects(p)
 	helpers := c03helpers(p)
@@ -295,6 +297,20 @@ func runC03(c *core.Ctx) {
 			c.Check(!isBadL[l], "R5", key, p.InstrPos(l), "key known to be present (range key of the same map / comma-ok success)", "input map "+core.Path(l.X)+" is read with a plain index expression for a key that may be absent: a missing key is indistinguishable from a stored zero value, so maps that differ only in such entries are treated alike")
 		}
 	}
+	nSent := 0
+	for _, f := range subjects {
+		all, bad := c03zeroSentinels(f)
+		nSent += len(all)
+		isBad := map[*ssa.BinOp]bool{}
+		for _, b := range bad {
+			isBad[b] = true
+		}
+		for i, b := range all {
+			key := fmt.Sprintf("%s/sentinel#%d", f.Name(), i+1)
+			c.Check(!isBad[b], "R8", key, p.InstrPos(b), "the comparison with the loop-carried variable is reached only behind a guard inside the loop", "an input element is compared with a loop-carried variable that still holds the zero value of its type on the first iteration, with no guard in between: an input whose first element is the zero value (0, \"\", nil) is treated as if it repeated a previous element")
+		}
+	}
+	c.Check(true, "R8", "scan", "fp.go", fmt.Sprintf("%d comparisons of input elements with zero-initialised loop-carried variables in %d functions, all guarded", nSent, len(subjects)), "")
 	if why := c03selftest(); why != "" {
 		c.Unknown("R4", "matcher-selftest", "-", why)
 	} else {
@@ -503,6 +519,42 @@ func lookupBad(m1, m2 map[int]int) bool {
 	}
 	return true
 }
+func sentinelBad[T comparable](list ...T) []T {
+	var out []T
+	var last T
+	for _, v := range list {
+		if v == last {
+			continue
+		}
+		out = append(out, v)
+		last = v
+	}
+	return out
+}
+func sentinelGood[T comparable](list ...T) []T {
+	var out []T
+	var last T
+	for i, v := range list {
+		if i > 0 && v == last {
+			continue
+		}
+		out = append(out, v)
+		last = v
+	}
+	return out
+}
+func counterGood(list []int, n int) int {
+	hits := 0
+	for _, v := range list {
+		if v == n {
+			hits++
+		}
+		if hits == v {
+			return v
+		}
+	}
+	return hits
+}
 func lookupGood(m1, m2 map[int]int) bool {
 	for k, v := range m1 {
 		if v2, ok := m2[k]; !ok || v2 != v {
@@ -516,11 +568,113 @@ func lookupGood(m1, m2 map[int]int) bool {
 }
 `
 
-// c03selftest runs the R4/R5 matchers on a fixed snippet: they must flag exactly the bad functions.
+// c03zeroSentinels finds the equality comparisons of f between an input element and a loop-carried variable (phi) that
+// mixes the zero value of its type with input elements (`var last T; for _, v := range list { if v == last … last = v }`),
+// and among them those that no condition inside the loop guards (the first iteration compares with the zero value).
+func c03zeroSentinels(f *ssa.Function) (all, bad []*ssa.BinOp) {
+	isElem := func(v ssa.Value) bool {
+		switch x := v.(type) {
+		case *ssa.UnOp:
+			if x.Op == token.MUL {
+				_, ok := x.X.(*ssa.IndexAddr)
+				return ok
+			}
+		case *ssa.Extract:
+			_, ok := x.Tuple.(*ssa.Next)
+			return ok
+		case *ssa.Index, *ssa.Lookup:
+			return true
+		}
+		return false
+	}
+	isZero := func(v ssa.Value) bool {
+		k, ok := v.(*ssa.Const)
+		if !ok {
+			return false
+		}
+		if k.Value == nil {
+			return true
+		}
+		switch k.Value.Kind() {
+		case constant.Int, constant.Float:
+			return constant.Sign(k.Value) == 0
+		case constant.String:
+			return constant.StringVal(k.Value) == ""
+		}
+		return false
+	}
+	sentinel := func(ph *ssa.Phi) bool {
+		zero, elem := false, false
+		seen := map[*ssa.Phi]bool{}
+		var walk func(*ssa.Phi)
+		walk = func(q *ssa.Phi) {
+			if seen[q] {
+				return
+			}
+			seen[q] = true
+			for _, e := range q.Edges {
+				switch {
+				case isZero(e):
+					zero = true
+				case isElem(e):
+					elem = true
+				default:
+					if r, ok := e.(*ssa.Phi); ok {
+						walk(r)
+					}
+				}
+			}
+		}
+		walk(ph)
+		return zero && elem
+	}
+	for _, b := range f.Blocks {
+		for _, ins := range b.Instrs {
+			bo, ok := ins.(*ssa.BinOp)
+			if !ok || (bo.Op != token.EQL && bo.Op != token.NEQ) {
+				continue
+			}
+			var ph *ssa.Phi
+			if q, ok := bo.X.(*ssa.Phi); ok && isElem(bo.Y) {
+				ph = q
+			} else if q, ok := bo.Y.(*ssa.Phi); ok && isElem(bo.X) {
+				ph = q
+			}
+			if ph == nil || !sentinel(ph) {
+				continue
+			}
+			all = append(all, bo)
+			guarded := false
+			for d := b.Idom(); d != nil && d != ph.Block(); d = d.Idom() {
+				if len(d.Instrs) > 0 {
+					if _, ok := d.Instrs[len(d.Instrs)-1].(*ssa.If); ok {
+						guarded = true
+					}
+				}
+			}
+			if !guarded {
+				bad = append(bad, bo)
+			}
+		}
+	}
+	return all, bad
+}
+
+// c03selftest runs the R4/R5/R8 matchers on a fixed snippet: they must flag exactly the bad functions.
 func c03selftest() string {
 	sp, err := core.BuildSnippet(c03snippet)
 	if err != nil {
 		return "cannot build the self-test snippet: " + err.Error()
+	}
+	for name, w := range map[string][2]int{"sentinelBad": {1, 1}, "sentinelGood": {1, 0}, "counterGood": {0, 0}} {
+		f := sp.Func(name)
+		if f == nil {
+			return "self-test function " + name + " missing"
+		}
+		all, bad := c03zeroSentinels(f)
+		if len(all) != w[0] || len(bad) != w[1] {
+			return fmt.Sprintf("matcher self-test: %s has %d sentinel comparisons of which %d flagged, expected %d and %d", name, len(all), len(bad), w[0], w[1])
+		}
 	}
 	want := map[string][2]int{"divBad": {1, 0}, "divGood": {0, 0}, "remConst": {0, 0}, "lookupBad": {0, 1}, "lookupGood": {0, 0}}
 	for name, w := range want {
